@@ -398,8 +398,14 @@ func run(id, tier string) int {
 	ev.Violations = violations
 	ev.WallS = time.Since(start).Seconds()
 	b, _ := json.MarshalIndent(ev, "", " ")
-	_ = os.MkdirAll(filepath.Join(vf.Root, "evidence"), 0o755)
-	if err := os.WriteFile(filepath.Join(vf.Root, "evidence", id+".json"), b, 0o644); err != nil {
+	// The evidence directory only holds runs against /repo itself: a development
+	// run against a scratch copy of the repository (VERIF_REPO) writes elsewhere.
+	evDir := filepath.Join(vf.Root, "evidence")
+	if os.Getenv("VERIF_REPO") != "" {
+		evDir = filepath.Join(vf.Root, "scratch", "evidence-alt")
+	}
+	_ = os.MkdirAll(evDir, 0o755)
+	if err := os.WriteFile(filepath.Join(evDir, id+".json"), b, 0o644); err != nil {
 		fmt.Fprintln(os.Stderr, err)
 		return 2
 	}
